@@ -211,7 +211,7 @@ func (g *Gen) alphaSelector(metric string) string {
 }
 
 func (g *Gen) optCase(i int) *Case {
-	c := &Case{ID: fmt.Sprintf("optx-%d", i), Profile: "optx", Series: smallData("m", "n"), Lookback: 300000, Procs: 4, Opt: "none"}
+	c := &Case{ID: fmt.Sprintf("optx-%d", i), Profile: "optx", Series: smallData("m", "n"), Lookback: 300000, Procs: int(g.pickI(1, 2, 4, 8)), Opt: "none"}
 	t := optTemplates[g.r.Intn(len(optTemplates))]
 	n := strings.Count(t, "%s")
 	args := make([]any, n)
@@ -271,7 +271,11 @@ func (g *Gen) distCase(i int) *Case {
 		case 4:
 			c.Query = "-" + a
 		case 5:
-			c.Query = "sum(" + a + ")"
+			// the same aggregation nested (count of count must not collapse)
+			c.Query = fmt.Sprintf("%s%s (%s)", agg, g.grouping(), a)
+			if agg == "topk" || agg == "stddev" || agg == "avg" {
+				c.Query = "sum(" + a + ")"
+			}
 		default:
 			c.Query = "abs(" + a + ") + 1"
 		}
